@@ -63,8 +63,9 @@ def plan_jobs(sts, observers, c):
     #     tier the box/prism/octahedron variants, under all of them; the mass of the others is dealt out among the kappas)
     for i, s in enumerate(uniq):
         add("mesh", s, 0, "ctor", "mc")
-        everywhere = (s["op"] == "init" or (s["op"] in ("delete", "dup", "inter") and (c["all_kappas_small"] or s["base"] != "tetra"))
-                      or (c["all_kappas_small"] and s["base"] in ("box", "prism", "octa")))
+        everywhere = s["op"] == "init" or (s["fam"] == "std" and (
+            (s["op"] in ("delete", "dup", "inter") and (c["all_kappas_small"] or s["base"] != "tetra"))
+            or (c["all_kappas_small"] and s["base"] in ("box", "prism", "octa"))))
         for ki in (k_rand if everywhere else [k_rand[(i + t) % nk] for t in range(c["kappas_per_state"])]):
             add("mesh", s, ki, "ctor", "mc")
         if i % c["late_every"] == 0:
@@ -78,16 +79,21 @@ def plan_jobs(sts, observers, c):
             add("mesh", v, 0, "ctor", "py")
             add("mesh", v, r.choice(k_rand), "ctor", "py")
     for s in uniq:
-        if s["kind"] in ("open", "dup", "inter", "pair") and (s["base"] != "tetra" or r.random() < 0.1):
+        if s["fam"] == "std" and s["kind"] in ("open", "dup", "inter", "pair") and (s["base"] != "tetra" or r.random() < 0.1):
             for _ in range(c["rand_derived"]):
                 v = drv.random_variant(s, r, flips=s["kind"] != "open")
                 add("mesh", v, 0, "ctor", "py")
                 add("mesh", v, r.choice(k_rand), "ctor", "py")
-    # (b1) random variants of the flat bodies (any face may come first, any winding)
+    # (b1) random variants of the flat bodies, alternately as one part and as two parts (any face may come first, any winding)
+    flat_dup = {}
+    for s in uniq:
+        if s["fam"] == "aniso" and s["kind"] == "dup" and s["n"] == 0:
+            flat_dup.setdefault(drv.bkey(s), s)
     for k, s in sorted(refs.items()):
         if s["fam"] == "aniso" and max(s["stretch"]) >= 400:
-            for _ in range(c["rand_aniso"]):
-                v = drv.random_variant(s, r)
+            two = flat_dup.get(k)
+            for t in range(c["rand_aniso"]):
+                v = drv.random_variant(two if (two is not None and t % 2) else s, r)
                 add("mesh", v, 0, "ctor", "py")
                 add("mesh", v, r.choice(k_rand), "ctor", "py")
     # (b2) the faces scipy's ConvexHull gives for the vertices of the convex bodies (what from_ConvexHull passes on):
